@@ -336,10 +336,16 @@ def opSync (cfg : Cfg) (s : State) (h : Hnd) (fail : Bool) : State × Out :=
 def expireInst (o : Inst) : Inst :=
   { o with cached := noCache, expired := true, inCache := false, pending := [], dirty := false }
 
+/-- `cache.expire(id, cls)` drops the cache entry of the KEY, whichever instance it points to: every other
+    held instance of that key is out of the cache too -/
+def evictOthers (s : State) (h : Hnd) (cls : Cls) (id : Id) : State :=
+  { s with objs := fun k => if k = h then s.objs k else
+      (s.objs k).map (fun o => if o.cls = cls ∧ o.id = id then { o with inCache := false } else o) }
+
 def opExpire (s : State) (h : Hnd) : State × Out :=
   match s.objs h with
   | none => (s, .badHandle)
-  | some o => (setObj s h (expireInst o), .ok)
+  | some o => (setObj (evictOthers s h o.cls o.id) h (expireInst o), .ok)
 
 /-- connection `expireAll()` / `sqlmeta.expireAll()`: every instance still registered in the cache -/
 def opExpireAll (s : State) (only : Option Cls) : State × Out :=
@@ -354,7 +360,7 @@ def opDestroy (s : State) (h : Hnd) : State × Out :=
   | some o =>
     let s1 := logStmt s (.delete o.cls o.id)
     let s2 := { s1 with db := setRowDb s1.db o.cls o.id none }
-    (setObj s2 h { o with obsolete := true, inCache := false }, .ok)
+    (setObj (evictOthers s2 h o.cls o.id) h { o with obsolete := true, inCache := false }, .ok)
 
 /-- `clear`: `{fkID: None}` when the referrer shows the id being deleted, else `{}` -/
 def clearArg (v : Val) (r : Id) : List (Col × Inp) :=
